@@ -40,6 +40,7 @@ type pclose struct {
 func lockChild(en *Env) {
 	slots := map[int]*kv.DB{}
 	parkedClose := map[int]*pclose{}
+	parkedOpen := map[int]*pclose{}
 	in := bufio.NewReader(os.Stdin)
 	out := bufio.NewWriter(os.Stdout)
 	for {
@@ -107,6 +108,52 @@ func lockChild(en *Env) {
 				results[i] = strings.ReplaceAll(results[i], " ", "_")
 			}
 			fmt.Fprintf(out, "res %s\n", strings.Join(results, " "))
+		case "openpark":
+			// openpark <slot> <dir>: Open runs on its own goroutine and is parked (blocking hook) right after it has taken
+			// the directory lock; answers "parked", or the result if Open returned without reaching that point
+			slot, _ := strconv.Atoi(f[1])
+			o := kv.DefaultOptions
+			o.DirPath = f[2]
+			o.DataFileSize = 1 << 20
+			parked, release, done := make(chan struct{}), make(chan struct{}), make(chan string, 1)
+			var once sync.Once
+			kv.VerifPoint = func(name string, arg uint32) {
+				if name == "open.locked" {
+					once.Do(func() { close(parked); <-release })
+				}
+			}
+			go func() {
+				var db *kv.DB
+				name := h.Guard(h.CallTimeout, func() error {
+					var err error
+					db, err = kv.Open(o)
+					return err
+				})
+				if name == "ok" {
+					slots[slot] = db
+				}
+				done <- name
+			}()
+			select {
+			case <-parked:
+				parkedOpen[slot] = &pclose{release, done}
+				fmt.Fprintf(out, "res parked\n")
+			case r := <-done:
+				kv.VerifPoint = nil
+				fmt.Fprintf(out, "res done:%s\n", strings.ReplaceAll(r, " ", "_"))
+			}
+		case "opengo":
+			slot, _ := strconv.Atoi(f[1])
+			po := parkedOpen[slot]
+			if po == nil {
+				fmt.Fprintf(out, "res notparked\n")
+				break
+			}
+			close(po.release)
+			r := <-po.done
+			kv.VerifPoint = nil
+			delete(parkedOpen, slot)
+			fmt.Fprintf(out, "res %s\n", strings.ReplaceAll(r, " ", "_"))
 		case "work":
 			// work <slot> <n>: the holder uses its database - a few writes and a Merge (none of which may let go of the lock)
 			slot, _ := strconv.Atoi(f[1])
@@ -330,6 +377,48 @@ func profDirLock(en *Env) {
 					open[o] = true
 				}
 				attempts++
+			case x < 50 && open[o] && len(open) == 1:
+				// the owner's process dies without Close (the operating system drops its lock); a new process takes its
+				// place; then an Open is parked right after it has taken the lock while another process tries to open
+				kids[p].cmd.Process.Kill()
+				kids[p].cmd.Wait()
+				en.T.Emit(h.Ev{"ev": "died", "p": p + 1})
+				delete(open, o)
+				delete(open, (p+1)*10+1-g)
+				if nk := startChild(en); nk != nil {
+					kids[p] = nk
+				} else {
+					return
+				}
+				pa := (p + 1) % len(kids)
+				oa := (pa+1)*10 + g
+				kids[pa].send("openpark %d %s", g, dir)
+				ra := kids[pa].recv()
+				if ra != "parked" {
+					ra = strings.TrimPrefix(ra, "done:")
+					en.T.Emit(h.Ev{"ev": "lk", "o": oa, "act": "open", "res": ra, "same": true})
+					if ra == "ok" {
+						open[oa] = true
+					}
+					break
+				}
+				en.T.Emit(h.Ev{"ev": "lk", "o": oa, "act": "openbegin", "res": "parked", "same": true})
+				pb := (pa + 1) % len(kids)
+				ob := (pb+1)*10 + g
+				before := fingerprint(dir)
+				kids[pb].send("open %d %s", g, dir)
+				rb := kids[pb].recv()
+				en.T.Emit(h.Ev{"ev": "lk", "o": ob, "act": "open", "res": rb, "same": before == fingerprint(dir)})
+				attempts++
+				if rb == "ok" {
+					open[ob] = true
+				}
+				kids[pa].send("opengo %d", g)
+				ra = kids[pa].recv()
+				en.T.Emit(h.Ev{"ev": "lk", "o": oa, "act": "openend", "res": ra, "same": true})
+				if ra == "ok" {
+					open[oa] = true
+				}
 			case x < 56 && open[o]:
 				kids[p].send("work %d %d", g, s)
 				res := kids[p].recv()
